@@ -10,6 +10,10 @@ Part J (job): the production caller annet.api.CliDeployerJob.parse_result on eve
         --dont-commit and --acl-safe: the commands it lists for confirmation (cmd_lines) and the commands it queues
         (deploy_cmds[device]) are those of the pipeline the other parts judge (_diff_and_patch -> cmd_paths ->
         apply_deploy_rulebook) for the configuration pair the flags select.
+Part E (end to end): for every corpus sample the production workers themselves, as annet.api.patch / annet.api.deploy run
+        them (mc/e2e.py: stub Loader, real generators yielding the sample's new tree split over an unsafe and a safe
+        generator, the old tree as <host>.cfg): the rows `annet patch` prints are the commands the deploy job lists
+        and queues, with and without --acl-safe / --dont-commit.
 Part D (deploy parameters): generated deploy rulebooks with disjoint sibling rules: (timeout, questions) of every
         Command == those of the unique rule chain matching its path, else the defaults.
 """
@@ -418,6 +422,8 @@ def blocks(tier, seed):
         out.append({"part": "K", "i": i})
     for i in range(8):
         out.append({"part": "J", "i": i})
+    for i in range(16):
+        out.append({"part": "E", "i": i, "of": 16})
     return out
 
 
@@ -530,6 +536,65 @@ def check_job(sample, acl_safe, dont_commit, report):
     return len(list(paths))
 
 
+def split_new(new):
+    """the sample's new tree over two generators: the first half of its top-level rows comes from a generator that also
+    has a safe ACL, the rest from one that has not (so --acl-safe plans less)"""
+    k = (len(new) + 1) // 2
+    return new[k:], new[:k]
+
+
+def check_e2e(sample, acl_safe, dont_commit, report):
+    """part E: `annet patch` (api._patch_worker) against the deploy job fed by annet.gen.old_new"""
+    from mc import e2e
+    case = {"part": "E", "sample": sample["name"], "acl_safe": acl_safe, "dont_commit": dont_commit}
+    unsafe, safe = split_new(sample["new"])
+    with e2e.Session(sample["model"], sample["old"], [(unsafe, False), (safe, True)]) as ss:
+        shown_exc = job_exc = None
+        try:
+            shown = ss.patch(acl_safe)
+        except Exception as e:  # noqa
+            shown_exc = e
+        try:
+            job = ss.deploy_job(acl_safe, dont_commit)
+        except Exception as e:  # noqa
+            job_exc = e
+        if shown_exc is not None or job_exc is not None:
+            if type(shown_exc) is not type(job_exc):
+                report({"kind": "e2e-one-side-raises", "patch": type(shown_exc).__name__, "deploy": type(job_exc).__name__}, case,
+                       "annet patch: %r; deploy job: %r" % (shown_exc, job_exc))
+            return "raises", 0
+        if len(shown) > 1 or (shown and shown[0][0] != ss.dev.hostname + ".patch"):
+            report({"kind": "e2e-patch-worker-output"}, case, repr(shown)[:300])
+            return "shape", 0
+        rows = [ln.strip() for ln in shown[0][1].split("\n") if ln.strip()] if shown else []
+        lines = list(job.cmd_lines)
+        sent = lines[2:-1] if lines else []
+        sent = [c.strip() for c in sent]
+        if lines and (lines[0] != "= %s " % ss.dev.hostname or lines[1] != "" or lines[-1] != ""):
+            report({"kind": "e2e-cmd-lines-frame"}, case, repr(lines[:3]))
+        # with --dont-commit the deploy job leaves out what cannot be applied without a commit (make_patch, by design):
+        # `annet patch` has no such flag, so the two are compared for committing deploys only
+        if rows != sent and not dont_commit:
+            cause = "other"
+            # the displayed patch may repeat a command at one level; the command stream is keyed by path (known)
+            if len(sent) < len(rows) and [r for r in rows if r in set(sent)] != [] and set(rows) == set(sent):
+                cause = "a command repeated at one level of the displayed patch is sent once (path-keyed cmd_paths)"
+            report({"kind": "shown-vs-sent", "part": "E", "cause": cause}, case,
+                   "annet patch rows=%r deploy job commands=%r" % (rows, sent))
+        queued = job.deploy_cmds.get(ss.dev)
+        if sent:
+            body = [c.cmd for c in queued] if queued is not None else []
+            it = iter(body)
+            if not all(any(y == x for y in it) for x in sent):
+                report({"kind": "e2e-queued-differs-from-listed", "part": "E"}, case, "queued=%r listed=%r" % (body, sent))
+            has_commit = any(c in ("commit", "commit and-quit") for c in body[len(body) - 4:])
+            if dont_commit and has_commit:
+                report({"kind": "e2e-commit-despite-dont-commit", "vendor": ss.vendor}, case, "queued=%r" % body)
+        elif queued is not None or job.has_diff():
+            report({"kind": "e2e-queued-without-patch"}, case, "queued=%r" % (queued,))
+        return "ok", len(sent)
+
+
 ALL_FLAGS = [(True, True), (True, False), (False, True), (False, False)]
 
 
@@ -591,6 +656,21 @@ def run_block(block, ctx):
                         if n > 1:
                             ctx.nontrivial += 1
                         ctx.outcomes["R:cmds=%s" % (n if n < 4 else "4+")] += 1
+    elif block["part"] == "E":
+        from mc import corpus
+        S = corpus.samples()
+        for si in range(block["i"], len(S), block["of"]):
+            for acl_safe in (0, 1):
+                for dont_commit in (0, 1):
+                    if ctx.expired():
+                        return
+                    label, n = check_e2e(S[si], acl_safe, dont_commit, ctx.violation)
+                    ctx.evals += 2
+                    ctx.states += 1
+                    if n > 1:
+                        ctx.nontrivial += 1
+                    ctx.outcomes["E:%s:cmds=%s" % (label, n if n < 4 else "4+")] += 1
+                    ctx.extra["e2e_runs"] += 1
     elif block["part"] == "J":
         from mc import corpus
         S = corpus.samples()
@@ -648,6 +728,9 @@ def replay(case):
         out.append((sig, d))
     if case["part"] == "S":
         check_tree(case["vendor"], case["model"], _tuplify(case["forest"]), [tuple(f) for f in case["flags"]], rep)
+    elif case["part"] == "E":
+        from mc import corpus
+        check_e2e(next(x for x in corpus.samples() if x["name"] == case["sample"]), case["acl_safe"], case["dont_commit"], rep)
     elif case["part"] == "J":
         from mc import corpus
         check_job(next(x for x in corpus.samples() if x["name"] == case["sample"]), case["acl_safe"], case["dont_commit"], rep)
